@@ -9,16 +9,24 @@
     specs/Hci/CodecTrace.tla (bytes = Ser(values), values = Par(bytes), well formed => same bytes again).
     Fields with callable codecs are opaque to the spec: their position in the layout and
     bytes -> value -> same bytes are judged by TLC, value -> bytes -> equal value here.
+(H) process histories (lib/c01_history.py): for every class with a callable-codec field, packets that carry the
+    same bytes in those fields while the one-byte fields around them go through their small codes are parsed by
+    several new python processes in different orders; specs/Pdu/Statelessness.tla accepts the histories iff
+    equal packet bytes always gave equal canonical field values (every attribute of a field value as its own
+    entry, e.g. the address type of an Address as a number - not the value's own __eq__).
 """
 from __future__ import annotations
 
+import concurrent.futures
 import dataclasses
 import importlib
 import inspect
 import pkgutil
+import re
 
 from lib import c01_codec as cc
 from lib import c01_engine as eng
+from lib import c01_history as hist
 from lib import tlc
 
 LEVEL = "model_checking"
@@ -378,10 +386,131 @@ def report_data_rejections(rep, rejected):
     return rest
 
 
+# ----------------------------------------------------------------------------- process histories (Statelessness.tla)
+def _history_label(case, path):
+    """the field (as in the violation signatures of the other parts) a path into a canonical value lies in"""
+    parts = [x for x in re.split(r"[.\[\]]+", path) if x and not x.isdigit()]
+    if len(parts) < 2 or parts[0] != "fields":
+        return parts[0] if parts else "packet"
+    for name in parts[1:]:  # outermost first: containers (return_parameters, the list of a group) match no field model
+        for fm in case.fms:
+            if fm.is_group:
+                for s in fm.sub:
+                    if s.name == name:
+                        return eng.label(s)
+            elif fm.name == name:
+                return eng.label(fm)
+    return "fields"
+
+
+def history_groups(ctx, only=None, cases=None):
+    """[(case, [(tag, packet bytes)])]: the packets of every class with a callable-codec field.  Uses the field
+    parsers of this process to find well-formed bytes (as the vectors of the other parts): call it from the main thread."""
+    if cases is None:
+        cases, _ = hci_cases()
+    helper = eng.Exerciser(ctx, None)
+    groups = []
+    seen_rp = set()
+    for case in cases:
+        if only and case.name != only:
+            continue
+        if not hist._has_opaque(case.fms):
+            continue
+        if case.family == "rp":
+            if case.cls in seen_rp:
+                continue
+            seen_rp.add(case.cls)
+        pk = hist.packets_for(case, ctx.seed, eng.frame_bytes, helper._reencode)
+        if len(pk) >= 2:
+            groups.append((case, pk))
+    return groups
+
+
+def history_traces(ctx, groups):
+    """-> (traces for Statelessness.tla, one per class: the histories of all processes projected on the packets
+    of that class, separated by "restart"; metas; stats).  Touches no Report: it may run beside the rest of the check.
+    An event is [op, key = packet bytes, res = digest of the canonical field values]; the canonical values
+    themselves stay in metas[..]["vals"] (same positions) for the diagnostic."""
+    if not groups:
+        return [], [], {"classes": 0, "packets": 0, "processes": 0, "parsed": 0}
+    n_proc = 2 if ctx.quick else 5
+    ords = hist.orders(len(groups), [len(pk) for _, pk in groups], n_proc, eng.class_rng(ctx.seed, "hci", "history-orders"))
+    outs = hist.run_processes([[groups[g][1][i][1] for g, i in o] for o in ords])
+    traces = [[] for _ in groups]
+    metas = [{"case": case, "tags": {bytes(raw): tag for tag, raw in pk}, "vals": [], "keys": []} for case, pk in groups]
+    parsed = 0
+    for k, (o, r) in enumerate(zip(ords, outs)):
+        if k:
+            for tr, m in zip(traces, metas):
+                tr.append({"op": "restart", "key": [], "res": []})
+                m["vals"].append(None)
+        for (g, i), res in zip(o, r["results"]):
+            case, pk = groups[g]
+            metas[g]["keys"].append(("hci", "history", case.name, pk[i][0], k))
+            parsed += "raised" not in res
+            traces[g].append({"op": "hci.parse", "key": list(pk[i][1]), "res": hist.digest(res)})
+            metas[g]["vals"].append(res)
+    stats = {"classes": len(groups), "packets": sum(len(pk) for _, pk in groups), "processes": n_proc, "parsed": parsed,
+             "bumble": sorted({r["bumble"] for r in outs})}
+    return traces, metas, stats
+
+
+def history_tlc(ctx, traces, tag="c01h"):
+    return tlc.trace_batch(ctx.spec("Pdu", "Statelessness.tla"), cc._cfg(ctx, f"{tag}.cfg"), traces, tag=tag)
+
+
+def history_report(rep, traces, metas, res):
+    rep.extra["history_states"] = res["states"]
+    rep.extra["trace_states"] = rep.extra.get("trace_states", 0) + res["states"]
+    rep.extra["trace_transitions"] = rep.extra.get("trace_transitions", 0) + res["transitions"]
+    for m in metas:
+        for key in m["keys"]:
+            rep.case(key, nontrivial=True)
+    for tid, v in sorted(res["verdicts"].items()):
+        rep.traces += 1
+        if v[0] != "REJECT":
+            continue
+        tr = traces[tid - 1]
+        m = metas[tid - 1]
+        case = m["case"]
+        line = v[1]
+        if not 0 < line <= len(tr):
+            raise tlc.TlcError(f"history {tid} rejected at line {line} of {len(tr)}")
+        ev = tr[line - 1]
+        fi = next(i for i, e in enumerate(tr[: line - 1]) if e["op"] == ev["op"] and e["key"] == ev["key"])
+        path, a, b = hist.first_difference(m["vals"][fi], m["vals"][line - 1])
+        proc = sum(1 for e in tr[: line - 1] if e["op"] == "restart")
+        rep.violation(f"hci:history:par:{_history_label(case, path)}",
+                      f"{case.name} ({case.family}): parsing {bytes(ev['key']).hex()[:120]} ({m['tags'].get(bytes(ev['key']), '?')}) gave {path} = {b!r} in process {proc}, "
+                      f"but {a!r} when another new process parsed the same bytes: the field values depend on what was parsed earlier in the process "
+                      f"(the processes parse the same packets, which carry the same bytes in the callable-codec fields, in different orders)",
+                      {"part": "history", "ns": "hci", "family": case.family, "cls": case.name, "line": line, "path": path,
+                       "key": bytes(ev["key"]).hex(), "first": m["vals"][fi], "later": m["vals"][line - 1]})
+
+
+def histories(ctx, groups):
+    """the new processes and the TLC run, without the report (may run in a thread beside the rest of the check)"""
+    import time
+
+    t0 = time.time()
+    traces, metas, stats = history_traces(ctx, groups)
+    res = history_tlc(ctx, traces) if traces else None
+    stats["wall_s"] = round(time.time() - t0, 1)  # spent beside the rest of the check, not added to it
+    return traces, metas, stats, res
+
+
+def histories_done(rep, job):
+    traces, metas, stats, res = job
+    rep.extra["histories"] = stats
+    if res is not None:
+        history_report(rep, traces, metas, res)
+    return stats
+
+
 # ----------------------------------------------------------------------------- entry points
-def _exercise(ctx, rep, only=None):
+def _exercise(ctx, rep, only=None, cases=None):
     ex = eng.Exerciser(ctx, rep, counts=(0, 1, 2) if ctx.quick else (0, 1, 2, 3), n_random=2 if ctx.quick else 12)
-    cases, notes = hci_cases()
+    cases, notes = cases or hci_cases()
     seen_rp = set()
     for case in cases:
         if only and case.name != only:
@@ -434,7 +563,10 @@ def run(ctx, rep):
                        "ISO Packet_Status_Flag is the two bits 14..15 of the SDU length word (Core Vol 4 Part E 5.4.5)",
                        "a repeated group takes its item count from its first column (documented in dict_to_bytes); unequal columns may also be refused"]
     model_check(ctx, rep)
-    ex = _exercise(ctx, rep)
+    pool = concurrent.futures.ThreadPoolExecutor(max_workers=1)
+    cases = hci_cases()
+    hjob = pool.submit(histories, ctx, history_groups(ctx, cases=cases[0]))  # new python processes + one TLC run: beside the exercising below
+    ex = _exercise(ctx, rep, cases=cases)
     rejected = cc.validate(ctx, rep, ex.events, ctx.spec("Hci", "CodecTrace.tla"), jobs=4 if ctx.quick else 6, tag="c01")
     rest = report_data_rejections(rep, rejected)
     ex.report_rejections(rest)
@@ -443,13 +575,19 @@ def run(ctx, rep):
     rep.extra["binding"] = st
     if ex.stats["classes"] < 300 or ex.stats["vectors"] < 3000:
         raise tlc.TlcError(f"vacuous binding: only {ex.stats['classes']} classes / {ex.stats['vectors']} vectors exercised")
+    hs = histories_done(rep, hjob.result())
+    pool.shutdown()
+    if hs["classes"] < 20 or hs["packets"] < 300 or hs["parsed"] < hs["packets"] * hs["processes"] // 2:
+        raise tlc.TlcError(f"vacuous histories: {hs}")
     rep.exhaustive = False
 
 
 def replay(ctx, rep):
     r = ctx.replay["replay"]
     print("replaying", ctx.replay["sig"])
-    if r.get("part") in ("fields", "event") and r.get("family") not in ("data", None) and not str(r.get("family", "")).startswith("unknown"):
+    if r.get("part") == "history":
+        histories_done(rep, histories(ctx, history_groups(ctx, only=r.get("cls"))))
+    elif r.get("part") in ("fields", "event") and r.get("family") not in ("data", None) and not str(r.get("family", "")).startswith("unknown"):
         ex = _exercise(ctx, rep, only=r["cls"])
         rejected = cc.validate(ctx, rep, ex.events, ctx.spec("Hci", "CodecTrace.tla"), jobs=2, tag="c01r")
         ex.report_rejections(report_data_rejections(rep, rejected))
@@ -528,5 +666,24 @@ def selftest(ctx, rep):
     results["corrupted-events"] = [w for _, w, _ in rej]
     if len(rej) != 3:
         rep.violation("selftest:corrupted-events", f"only {len(rej)} of 3 corrupted events rejected: {results['corrupted-events']}")
+    # process histories: the recorded histories of one class are accepted; with one attribute of one field value of
+    # the second process changed (what a parse cache keyed by a too coarse equality does) they are rejected
+    r4 = type(rep)(rep.prop, rep.level)
+    traces, metas, _ = history_traces(ctx, history_groups(ctx, only="HCI_LE_Connection_Complete_Event"))
+    if not traces:
+        raise tlc.TlcError("selftest: no history for HCI_LE_Connection_Complete_Event")
+    bad = copy.deepcopy(traces[0])
+    badm = dict(metas[0], vals=copy.deepcopy(metas[0]["vals"]))
+    cut = next(i for i, e in enumerate(bad) if e["op"] == "restart")
+    vi = next(i for i in range(cut + 1, len(bad)) if "raised" not in badm["vals"][i])
+    val = badm["vals"][vi]
+    fld = next(k for k, x in val["fields"].items() if isinstance(x, dict))
+    att = next(k for k, x in val["fields"][fld].items() if isinstance(x, int))
+    val["fields"][fld][att] ^= 2
+    bad[vi]["res"] = hist.digest(val)
+    history_report(r4, [traces[0], bad], [metas[0], badm], history_tlc(ctx, [traces[0], bad], tag="c01hs"))
+    results["histories"] = sorted(v.sig for v in r4.violations)
+    if len(r4.violations) != 1 or not r4.violations[0].sig.startswith("hci:history:par:opq"):
+        rep.violation("selftest:histories", f"expected exactly the corrupted history to be rejected, got {results['histories']}")
     print("selftest:", results)
     rep.extra["selftest"] = results
